@@ -129,22 +129,32 @@ fn load_graph(
     // Map of model node index to graph node ID
     let mut node_id_from_index: HashMap<usize, NodeId> = HashMap::with_capacity(node_count);
 
-    let input_ids: Vec<NodeId> = serialized_graph
-        .inputs()
-        .map(|ids| ids.iter().map(NodeId::from_u32).collect())
-        .unwrap_or_default();
+    // `NodeId::from_u32` panics if the ID is out of range, so check IDs read
+    // from the file first.
+    let node_ids = |ids: Option<flatbuffers::Vector<u32>>| -> Result<Vec<NodeId>, LoadError> {
+        ids.map(|ids| {
+            ids.iter()
+                .map(|id| {
+                    if id <= i32::MAX as u32 {
+                        Ok(NodeId::from_u32(id))
+                    } else {
+                        Err(load_error!(GraphError, None, "node ID {} is out of range", id))
+                    }
+                })
+                .collect()
+        })
+        .unwrap_or(Ok(Vec::new()))
+    };
 
-    let output_ids: Vec<NodeId> = serialized_graph
-        .outputs()
-        .map(|ids| ids.iter().map(NodeId::from_u32).collect())
-        .unwrap_or_default();
+    let input_ids = node_ids(serialized_graph.inputs())?;
+    let output_ids = node_ids(serialized_graph.outputs())?;
 
     let mut graph = Graph::with_capacity(node_count);
     graph.set_input_ids(&input_ids);
     graph.set_output_ids(&output_ids);
 
-    if let Some(captures) = serialized_graph.captures() {
-        let captures: Vec<NodeId> = captures.iter().map(NodeId::from_u32).collect();
+    if serialized_graph.captures().is_some() {
+        let captures = node_ids(serialized_graph.captures())?;
         graph.set_captures(&captures);
     }
 
